@@ -548,6 +548,73 @@ class Translator:
                 self.ad.fail(ia, 'statement `%s` not found' % need)
         return offs, fn.lineno
 
+    def sum_ac(self):
+        """ACChecker._is_sum_ac: how two same-frequency terms (A1, p1), (A2, p2) are merged into
+        one (amp, phase): x, y formulas and the three branches y == 0 / x == 0 / else"""
+        cls = self.ad.cls('ACChecker')
+        fn = self.ad.func(cls, '_is_sum_ac')
+        loops = [n for n in fn.body if isinstance(n, ast.For)]
+        if len(loops) != 1 or ast.unparse(loops[0].iter) != 'terms[1:]':
+            self.ad.fail(fn, 'loop over terms[1:] not found')
+        body = loops[0].body
+        text = [ast.unparse(n) for n in body]
+        for need in ('check2 = ACChecker(term, self.var)', 'A1, p1 = (check.amp, check.phase)', 'A2, p2 = (check2.amp, check2.phase)'):
+            if need not in text:
+                self.ad.fail(fn, 'statement `%s` not found' % need)
+        env = {'A1': 'A1', 'A2': 'A2', 'cos(p1)': 'c1', 'cos(p2)': 'c2', 'sin(p1)': 's1', 'sin(p2)': 's2'}
+
+        def tr(e):
+            u = ast.unparse(e)
+            if u in env:
+                return env[u]
+            if isinstance(e, ast.BinOp):
+                op = {ast.Add: 'fadd', ast.Sub: 'fsub', ast.Mult: 'fmul'}.get(type(e.op))
+                if op:
+                    return '(%s %s %s)' % (op, tr(e.left), tr(e.right))
+            if isinstance(e, ast.UnaryOp) and isinstance(e.op, ast.USub):
+                return '(fopp %s)' % tr(e.operand)
+            self.ad.fail(e, 'unsupported term in _is_sum_ac')
+        xy = {}
+        for n in body:
+            if isinstance(n, ast.Assign) and ast.unparse(n.targets[0]) in ('x', 'y'):
+                if ast.unparse(n.targets[0]) in xy:
+                    self.ad.fail(n, 'x/y assigned twice')
+                xy[ast.unparse(n.targets[0])] = tr(n.value)
+        if set(xy) != {'x', 'y'}:
+            self.ad.fail(fn, 'x / y not found')
+        ifs = [n for n in body if isinstance(n, ast.If) and ast.unparse(n.test) in ('y == 0', 'x == 0')]
+        if len(ifs) != 1 or ast.unparse(ifs[0].test) != 'y == 0' or body[-1] is not ifs[0]:
+            self.ad.fail(fn, 'expected the `if y == 0` chain as the last statement of the loop')
+        QT = {'0': 0, '-pi / 2': -1, 'pi / 2': 1, 'pi': 2, '-pi': 2}
+
+        def branch(stmts, where):
+            d = {}
+            for n in stmts:
+                if not isinstance(n, ast.Assign) or ast.unparse(n.targets[0]) not in ('check.phase', 'check.amp'):
+                    self.ad.fail(n, 'unexpected statement in the %s branch' % where)
+                d[ast.unparse(n.targets[0])] = ast.unparse(n.value)
+            if set(d) != {'check.phase', 'check.amp'}:
+                self.ad.fail(fn, 'phase/amp not both set in the %s branch' % where)
+            return d
+        b0 = branch(ifs[0].body, 'y == 0')
+        if len(ifs[0].orelse) != 1 or not isinstance(ifs[0].orelse[0], ast.If) or ast.unparse(ifs[0].orelse[0].test) != 'x == 0':
+            self.ad.fail(fn, 'expected `elif x == 0`')
+        b1 = branch(ifs[0].orelse[0].body, 'x == 0')
+        b2 = branch(ifs[0].orelse[0].orelse, 'else')
+        out = {'x': xy['x'], 'y': xy['y'], 'line': fn.lineno}
+        for nm, bb in (('y0', b0), ('x0', b1)):
+            if bb['check.phase'] not in QT or bb['check.amp'] not in ('x', 'y'):
+                self.ad.fail(fn, 'branch %s: phase %s / amp %s outside the subset' % (nm, bb['check.phase'], bb['check.amp']))
+            out[nm] = (bb['check.amp'], QT[bb['check.phase']])
+        if b2 != {'check.phase': 'atan2(y, x)', 'check.amp': 'sqrt(x ** 2 + y ** 2)'}:
+            self.ad.fail(fn, 'else branch is not the polar form atan2(y, x), sqrt(x**2 + y**2): %s' % b2)
+        # after the loop the merged values are copied to self
+        tail = [ast.unparse(n) for n in fn.body]
+        for need in ('self.amp = check.amp', 'self.phase = check.phase', 'self.omega = check.omega'):
+            if need not in tail:
+                self.ad.fail(fn, 'statement `%s` not found' % need)
+        return out
+
     # ---- all ----------------------------------------------------------------------------
     def translate(self):
         for n in LEAVES:
@@ -561,6 +628,7 @@ class Translator:
         self.iac = self.ac_source('Iac', '_Isc')
         self.ptime, l4 = self.phasor_time()
         self.offs, l5 = self.acchecker()
+        self.sumac = self.sum_ac()
         self.lines = {'impedance': l1, 'admittance': l2, 'select': l3, 'time': l4, 'acchecker': l5}
         return self
 
@@ -596,6 +664,14 @@ class Translator:
         o.append('Definition gen_phasor_time {K : fld} (re_ im_ C S : K) : K := %s.' % self.ptime)
         o.append('(* acdc.py ACChecker._find_freq_phase, line %d: phase offset of the function, in quarter turns *)' % self.lines['acchecker'])
         o.append('Definition gen_offs (f : trig) : Z := match f with TCos => (%d) | TSin => (%d) end.' % (self.offs['cos'], self.offs['sin']))
+        sa = self.sumac
+        o.append('(* acdc.py ACChecker._is_sum_ac, line %d: merging (A1, p1) and (A2, p2) of one frequency; c_i = cos(p_i), s_i = sin(p_i) *)' % sa['line'])
+        o.append('Definition gen_sum_x {K : fld} (A1 c1 s1 A2 c2 s2 : K) : K := %s.' % sa['x'])
+        o.append('Definition gen_sum_y {K : fld} (A1 c1 s1 A2 c2 s2 : K) : K := %s.' % sa['y'])
+        o.append('(* branch y == 0: (amp, phase in quarter turns); branch x == 0; the else branch is the polar form (sqrt(x^2+y^2), atan2(y, x)) *)')
+        o.append('Inductive ampsel := AmpX | AmpY.')
+        o.append('Definition gen_sum_y0 : ampsel * Z := (Amp%s, (%d)).' % (sa['y0'][0].upper(), sa['y0'][1]))
+        o.append('Definition gen_sum_x0 : ampsel * Z := (Amp%s, (%d)).' % (sa['x0'][0].upper(), sa['x0'][1]))
         for nm, d in (('vac', self.vac), ('iac', self.iac)):
             o.append('(* oneport.py %s.__init__, line %d: phasor(arg%d * exp(j * arg%d), omega=arg%d); time form arg%d * cos(arg%d * t + arg%d) *)' % (
                 nm.capitalize(), d['line'], d['amp'], d['phase'], d['omega'], d['amp'], d['omega'], d['phase']))
@@ -608,7 +684,7 @@ class Translator:
     def summary(self):
         return {'leaves': {k: {'slot': v['slot'], 'expr': v['coq'], 'params': v['params']} for k, v in self.leaves.items()},
                 'aliases': self.aliases, 'select_nonstr': self.nonstr, 'select': self.table,
-                'vac': self.vac, 'iac': self.iac, 'offs': self.offs}
+                'vac': self.vac, 'iac': self.iac, 'offs': self.offs, 'sum_ac': self.sumac}
 
 
 if __name__ == '__main__':
